@@ -185,7 +185,14 @@ def r1(ctx, R):
         ext[t] = "F"
     R.inst("wrap_impl[auto] outside the tree: original object kept")
     oc = _mode_outcome("auto", ext)
-    outside_ok = [r_ for r_ in rets if norm(r_.value) in ("value", "value.direct_bases[0]")]
+    outside_ok = [r_ for r_ in rets if norm(r_.value) == "value"]
+    for r_ in rets:
+        for x in ast.walk(r_.value):
+            if isinstance(x, ast.Attribute) and x.attr not in ("rootspace", "owner", "interface", "_impl", "idstr") \
+                    and isinstance(x.value, ast.Name) and x.value.id == "value" \
+                    and not any(x.attr in c_.consts or c_.lookup(x.attr) is not None for c_ in ctx.cls("ReferenceImpl").mro):
+                R.bad(wi, r_, "wrap_impl reads `value.%s`, which a ReferenceImpl does not have: building the ItemSpace "
+                              "fails for a derived reference whose target is outside the tree" % x.attr)
     if _reached(wi, rs, oc) or not _reached(wi, outside_ok, oc):
         R.bad(wi, wi.node, "auto mode outside the base's tree does not keep the original object", stmt="wrap_impl[auto]")
     R.inst("wrap_impl[relative] outside the tree: refused")
